@@ -382,6 +382,7 @@ Plan doc_gen(const std::string &check, const std::string &tier, uint64_t seed, l
 	}
 	plan.ops.push_back(im);
 	g.roots[ri] = saved;
+	if (rng.chance(0.25) && !c12) { Op again = im; again.k = rng.chance(0.5) ? "import_f" : "import_s"; plan.ops.push_back(again); }	// the same document once more into the tree it produced
 	if (rng.chance(0.3) && !c12) {	// second import into another (empty or populated) root
 	    Op im2 = im; im2.k = rng.chance(0.5) ? "import_f" : "import_s"; im2.i[0] = (ri + 1) % NROOTS;
 	    plan.ops.push_back(im2);
